@@ -131,6 +131,12 @@ def died(res, sc, what):
                 pass
 
 
+def give_up(res):
+    """Scenario after scenario dying (each burns its whole step budget first) while the sequence monitor has already reported:
+    the verdict is in, the remaining workload would only run into the wall-clock watchdog and turn it into 'inconclusive'."""
+    return res.counters.get("scenarios-died", 0) >= 3 and bool(res.violations)
+
+
 def run(ctx):
     res = common.Result("C17")
     rng = ctx.rng()
@@ -202,6 +208,8 @@ def run(ctx):
                 sc.close()
             except ScenarioDead:
                 died(res, sc, f"phase:{kind}:{ph:+d}")
+                if give_up(res):
+                    return res
                 continue
     # ---- (d) bulk calls: many requests in one call draw many counts between two frames (several multi-service packets back to back) --------
     bulk = [2, 3, 15, 16, 17, 127, 128, 129, 215, 216, 217, 254, 255, 256, 257, 430, 511, 512, 513, 1023, 1024, 1025, 2047, 2048, 2049,
@@ -236,6 +244,8 @@ def run(ctx):
             sc.close()
         except ScenarioDead:
             died(res, sc, f"bulk:{n}")
+            if give_up(res):
+                return res
             continue
     # ---- (e) SLC / PCCC traffic, including the rarely used public calls: every one of them sends connected messages -----------------------------
     if ctx.shard % 4 == 1:
